@@ -513,6 +513,9 @@ impl<T: Config> UdpProtocol<T> {
         if self.pending_output.len() > PENDING_OUTPUT_SIZE && !self.disconnect_event_sent {
             self.event_queue.push_back(Event::Disconnected);
             self.disconnect_event_sent = true;
+            // stop being a running endpoint right away: until the session has handled the event (at its next poll) a packet
+            // of the spectator or the notify timer could otherwise still raise NetworkResumed / NetworkInterrupted
+            self.disconnect();
         }
 
         self.send_pending_output(connect_status);
